@@ -12,6 +12,7 @@
 #include <nop/rpc/interface.h>
 #include <nop/utility/endian.h>
 #include <nop/utility/sip_hash.h>
+#include <nop/utility/constexpr_buffer_writer.h>
 #include <nop/utility/stream_writer.h>
 #include <sstream>
 
@@ -54,9 +55,11 @@ template <typename T> std::vector<uint8_t> EmptyTableBytes() {
   nop::Serializer<nop::StreamWriter<std::stringstream>> ser; T t; auto st = ser.Write(t); (void)st;
   std::string s = ser.writer().stream().str(); return std::vector<uint8_t>(s.begin(), s.end());
 }
+// (the non-empty table goes through the constexpr-capable writer, the empty one through a stream: the hash on the wire must be the same 64-bit value
+//  whichever writer carries it)
 template <typename T> std::vector<uint8_t> FullTableBytes() {
-  nop::Serializer<nop::StreamWriter<std::stringstream>> ser; T t; t.a = 5; t.b = std::string("xy"); auto st = ser.Write(t); (void)st;
-  std::string s = ser.writer().stream().str(); return std::vector<uint8_t>(s.begin(), s.end());
+  std::uint8_t buf[96]; nop::Serializer<nop::ConstexprBufferWriter> ser{buf, sizeof buf}; T t; t.a = 5; t.b = std::string("xy"); auto st = ser.Write(t); (void)st;
+  return std::vector<uint8_t>(buf, buf + ser.writer().size());
 }
 template <typename I> uint64_t IfaceHashRt() { return I::GetInterfaceHash(); }
 template <int I> struct LitCall;
@@ -249,6 +252,26 @@ template <typename T> struct EndianCheck {
   }
 };
 
+// conversions compiled in engines/hash/lean_endian.cpp (library header included first, nothing else)
+namespace vf_lean { std::uint16_t from_big_u16(std::uint16_t); std::uint16_t to_big_u16(std::uint16_t); std::uint16_t from_little_u16(std::uint16_t); std::int32_t from_big_i32(std::int32_t); std::int32_t to_little_i32(std::int32_t);
+  std::uint64_t from_big_u64(std::uint64_t); std::uint64_t to_big_u64(std::uint64_t); std::uint64_t from_little_u64(std::uint64_t); float from_big_f32(float); float to_little_f32(float); double to_big_f64(double); double from_little_f64(double); }
+template <typename T> static void lean_one(const char* what, T x, T got, bool reversed) {
+  T rev = byterev(x); bool little = host_little(); T exp = (reversed == little) ? rev : x;
+  rep().count("c20_lean_translation_unit_values"); rep().note(hash_combine(hash_str(what), hash_bytes((const uint8_t*)&x, sizeof(T))), !biteq(rev, x));
+  if (!biteq(got, exp)) rep().violation(fmt("oracle-endian:lean-translation-unit:%s", what), fmt("%s(bytes %s) compiled in a translation unit that includes <nop/utility/endian.h> first = bytes %s, expected bytes %s", what, bits(x).c_str(), bits(got).c_str(), bits(exp).c_str()), case_desc(what, -1, "lean", J().s("bytes", bits(x)).str()));
+}
+static void c20_lean() {
+  if (!mine(17)) return;
+  Rng r = case_rng("lean", 0);
+  for (int i = 0; i < 4000; i++) {
+    uint64_t u = i < 8 ? (0x0102030405060708ull << (i * 8 % 64)) | (uint64_t)i : r.next(); uint16_t h = (uint16_t)u; int32_t w = (int32_t)(uint32_t)u; float f; uint32_t fb = (uint32_t)(u >> 7); memcpy(&f, &fb, 4); double d; memcpy(&d, &u, 8);
+    lean_one<uint16_t>("HostEndian<uint16_t>::FromBig", h, vf_lean::from_big_u16(h), true); lean_one<uint16_t>("HostEndian<uint16_t>::ToBig", h, vf_lean::to_big_u16(h), true); lean_one<uint16_t>("HostEndian<uint16_t>::FromLittle", h, vf_lean::from_little_u16(h), false);
+    lean_one<int32_t>("HostEndian<int32_t>::FromBig", w, vf_lean::from_big_i32(w), true); lean_one<int32_t>("HostEndian<int32_t>::ToLittle", w, vf_lean::to_little_i32(w), false);
+    lean_one<uint64_t>("HostEndian<uint64_t>::FromBig", u, vf_lean::from_big_u64(u), true); lean_one<uint64_t>("HostEndian<uint64_t>::ToBig", u, vf_lean::to_big_u64(u), true); lean_one<uint64_t>("HostEndian<uint64_t>::FromLittle", u, vf_lean::from_little_u64(u), false);
+    lean_one<float>("HostEndian<float>::FromBig", f, vf_lean::from_big_f32(f), true); lean_one<float>("HostEndian<float>::ToLittle", f, vf_lean::to_little_f32(f), false);
+    lean_one<double>("HostEndian<double>::ToBig", d, vf_lean::to_big_f64(d), true); lean_one<double>("HostEndian<double>::FromLittle", d, vf_lean::from_little_f64(d), false);
+  }
+}
 template <typename T, typename U> static void c20_type(const char* tname, int unit) {
   // U = unsigned integer of the same width, used to enumerate bit patterns
   if (!selected(tname, -1) && !args().only_type.empty()) return;
@@ -318,6 +341,7 @@ int vf::engine_main() {
     c20_type<float, uint32_t>("float", 8); c20_type<double, uint64_t>("double", 9);
     // the integral types that are distinct from every fixed-width typedef on this ABI ("every integral value" is not only the <cstdint> names)
     c20_type<long long, uint64_t>("long long", 10); c20_type<unsigned long long, uint64_t>("unsigned long long", 11);
+    c20_lean();
     c20_type<char, uint8_t>("char", 12); c20_type<wchar_t, uint32_t>("wchar_t", 13); c20_type<char16_t, uint16_t>("char16_t", 14); c20_type<char32_t, uint32_t>("char32_t", 15);
     return 0;
   }
